@@ -542,23 +542,23 @@ func writeEvidence(id, tier string, seed uint64, m propMeta, t workerResult, dis
 		perHour = float64(t.Runs) / wall * 3600
 	}
 	cov := map[string]any{
-		"evaluations":             t.Runs,
-		"distinct_nontrivial":     distinct,
-		"rule":                    m.Rule,
-		"samples":                 samples,
-		"exhaustive":              exhaustive && m.Exhaustive,
-		"runs_per_hour":           int64(perHour),
-		"simulated_seconds":       float64(t.SimNs) / 1e9,
-		"kernel_steps":            t.Steps,
-		"faults_fired":            faults,
-		"reach_probes":            probes,
-		"counters":                other,
-		"workers":                 nworkers,
-		"components_real":         m.Real,
-		"components_stubbed":      m.Stubbed,
-		"not_covered":             m.NotCovered,
-		"known_findings_matched":  matched,
-		"technique":               "deterministic simulation with fault injection (seeded kernel on a synctest bubble, simulated transport, reference SMTP server)",
+		"evaluations":            t.Runs,
+		"distinct_nontrivial":    distinct,
+		"rule":                   m.Rule,
+		"samples":                samples,
+		"exhaustive":             exhaustive && m.Exhaustive,
+		"runs_per_hour":          int64(perHour),
+		"simulated_seconds":      float64(t.SimNs) / 1e9,
+		"kernel_steps":           t.Steps,
+		"faults_fired":           faults,
+		"reach_probes":           probes,
+		"counters":               other,
+		"workers":                nworkers,
+		"components_real":        m.Real,
+		"components_stubbed":     m.Stubbed,
+		"not_covered":            m.NotCovered,
+		"known_findings_matched": matched,
+		"technique":              "deterministic simulation with fault injection (seeded kernel on a synctest bubble, simulated transport, reference SMTP server)",
 	}
 	ev := map[string]any{
 		"property_id": id, "tier": tier, "seed": int64(seed), "level": m.Level, "coverage": cov,
